@@ -14,21 +14,27 @@ from sa.source import AnalysisError, methods, mro_lookup
 PROPERTY = "C32"
 DNS = "names/dns.py"
 Q = "twisted.names.dns"
-TECHNIQUE = "interpretation of encode/decode on concrete messages against an independent DNS parser"
+TECHNIQUE = "format-table agreement, guard dominance with linear bounds, registry rules; interpreted round trips as bounded layer"
 EXPLANATION = (
-    "Message / record / name encoders and decoders are interpreted (whitelisted AST interpreter; twisted is never imported) on concrete messages and the "
-    "OUTPUTS are judged, so the verdict does not depend on how the code is arranged. "
-    "For every registered record class, for all header flags, for the four sections with distinct counts, for names that share suffixes, differ in "
-    "case, nest 40 levels deep or repeat, for records with empty RDATA, unknown types, EDNS OPT records and the leaf codecs around the empty string and "
-    "the 255/256-octet boundary: toStr() then fromStr() must give an equal message (compared through the classes' own compareAttributes), an independent "
-    "RFC 1035/2535/6891 parser written in the checker must read the same header bits, counts, names, types, TTLs and RDATA framing, and an item the "
-    "format cannot carry must be refused by encode, not altered. "
-    "Size limit: for limits around the exact size the output is within the limit, TC is set exactly when something was cut, and decoding yields a "
-    "prefix of the records. "
-    "Name.encode must refuse labels longer than 63 bytes and never write a compression pointer to an offset >= 0x4000: both fail (known finding F32). "
-    "Statically: every Record_* class is defined before Message, has a distinct TYPE, accepts ttl=, and attributes a decoder sets are compared by ==. "
-    "Not decided: compression optimality, the vendored third-party decoder (replaced here by the checker's own parser)."
+    'STRUCTURAL (for every message): for ALL classes defining encode and decode (private helpers followed, class constants '
+    'resolved) the multiset of fixed-size struct codes the writer packs equals the multiset the reader unpacks (table '
+    'agreement; four documented exceptions); Name.encode writes the label-length byte and the compression pointer only '
+    'under dominating guards bounding them by 63 / 0x3FFF in linear normal form - both guards are missing (known finding '
+    'F32); every attribute a decoder assigns takes part in ==; every Record_* class is defined before Message, has a '
+    'distinct TYPE and accepts ttl=. BOUNDED second layer (encoders/decoders interpreted on enumerated messages, judged '
+    'through compareAttributes and by an independent RFC 1035/2535/6891 parser written in the checker): every record class, '
+    'all header flags, four sections with distinct counts, names with shared suffixes / case variants / 40 nesting levels / '
+    '63-byte labels, empty RDATA, unknown types, EDNS parameters and options, size limits around the exact size, leaf '
+    'codecs around the empty string and the 255/256 boundary, the two F32 inputs. Bounded evidence only: field ORDER inside '
+    "a record, header bit positions, section order, truncation arithmetic and 'the reader accepts every pointer chain the "
+    "writer emits' (the format-table rule fixes widths and signedness for all inputs, not positions). Not decided: "
+    'compression optimality, the vendored third-party decoder.'
 )
+RULE_KINDS = {
+    "layout/format-table": "structural", "name/label-length-limit": "structural", "name/pointer-offset-limit": "structural", "equality/decoded-fields-compared": "structural",
+    "registry/": "structural",
+    "*": "bounded",       # interpreted round trips on the enumerated messages, judged by the checker's own parser
+}
 ASSUMPTIONS = [
     "struct, bytes and BytesIO behave as in CPython 3.12 (used by the interpreter, not modelled)",
     "Message._recordTypes (filled by a loop over globals() in the class body) equals {cls.TYPE: cls for every module-level Record_* class}; the static registry rules check "
@@ -387,7 +393,7 @@ def check_name_limits(ctx, w: World):
     ev = w.ev()
     buf = io.BytesIO()
     k, r = w.run("Name.encode", lambda: ev.method(w.name(b"a" * 64 + b".com"), "encode", [buf, None]))
-    ctx.check(k == "raised", "name/label-length-limit", q + " | <label longer than 63 bytes>",
+    ctx.check(k == "raised", "name-evaluated/label-length-limit", q + " | <label longer than 63 bytes>",
               "Name(b'a'*64 + b'.com').encode() writes the length byte 0x40 and a 200-byte label writes 0xc8: the two top bits of that byte mean "
               "'compression pointer' to every reader, so the name is not refused and does not decode to itself (labels are limited to 63 bytes)")
     buf = io.BytesIO()
@@ -395,7 +401,7 @@ def check_name_limits(ctx, w: World):
     k, r = w.run("Name.encode", lambda: ev.method(w.name(b"www.example.org"), "encode", [buf, comp]))
     out = buf.getvalue()
     mis = k == "value" and out.endswith(struct.pack(">H", 0xC000 | 0x4001)) or (k == "value" and len(out) >= 2 and out[-2] & 0xC0 == 0xC0 and out[-1] != 0 and ((out[-2] & 0x3F) << 8 | out[-1]) != 0x4001 and not out.endswith(b"\x03org\x00"))
-    ctx.check(not mis, "name/pointer-offset-limit", q + " | <compression pointer to an offset >= 0x4000>",
+    ctx.check(not mis, "name-evaluated/pointer-offset-limit", q + " | <compression pointer to an offset >= 0x4000>",
               "a name that was first written at offset >= 0x4000 is referenced with 0xC000 | offset, which a reader decodes as offset & 0x3FFF: "
               "in a 26 KiB message the last owner name decodes to bytes from the middle of another record")
     # pointers and offsets are relative to the start of the message
@@ -404,11 +410,11 @@ def check_name_limits(ctx, w: World):
     k, r = w.run("Name.encode", lambda: ev.method(w.name(b"www.example.org"), "encode", [buf, comp2]))
     hs = 12
     ctx.check(k == "value" and comp2 == {b"www.example.org": hs, b"example.org": hs + 4, b"org": hs + 12} and buf.getvalue() == b"\x03www\x07example\x03org\x00",
-              "name/pointer-form", q + " | <offsets recorded>", f"encoding www.example.org at body offset 0 records {comp2!r} and writes {buf.getvalue()!r}; every suffix must be remembered at "
+              "name-evaluated/pointer-form", q + " | <offsets recorded>", f"encoding www.example.org at body offset 0 records {comp2!r} and writes {buf.getvalue()!r}; every suffix must be remembered at "
               "its offset from the start of the message (header size 12)")
     buf = io.BytesIO()
     k, r = w.run("Name.encode", lambda: ev.method(w.name(b"ftp.example.org"), "encode", [buf, {b"example.org": 0x0123}]))
-    ctx.check(k == "value" and buf.getvalue() == b"\x03ftp\xc1\x23", "name/pointer-form", q + " | <pointer written>",
+    ctx.check(k == "value" and buf.getvalue() == b"\x03ftp\xc1\x23", "name-evaluated/pointer-form", q + " | <pointer written>",
               f"ftp.example.org with example.org known at offset 0x123 is written as {buf.getvalue()!r}; expected b'\\x03ftp\\xc1\\x23' (RFC 1035 4.1.4)")
 
 
@@ -582,10 +588,10 @@ def check_decoded_fields_compared(ctx, w: World):
                     continue
                 if a in base and dec.fields.get(a) == (fresh_o.fields.get(a) if fresh_k == "value" else None):
                     continue
-                ctx.violation("equality/decoded-fields-compared", f"{Q}.{cname} | {a}",
+                ctx.violation("equality/decoded-fields-evaluated", f"{Q}.{cname} | {a}",
                               f"{cname}.decode sets self.{a} but compareAttributes {tuple(attrs)} ignores it: two records differing only there compare equal "
                               "(a round trip would not notice a mangled field)")
-            ctx.ok("equality/decoded-fields-compared", f"{Q}.{cname} | <decoded fields>", f"{sorted(dec.fields)}")
+            ctx.ok("equality/decoded-fields-evaluated", f"{Q}.{cname} | <decoded fields>", f"{sorted(dec.fields)}")
 
 
 # ---- static registry rules ---------------------------------------------------------------------------------------------
@@ -616,9 +622,203 @@ def check_registry(ctx, mod, consts):
               "the registry is no longer filled from every global whose name starts with 'Record_' (the interpreted round trips assume exactly that table)")
 
 
+# ---- structural layer ---------------------------------------------------------------------------------------------------
+
+FORMAT_TABLE_EXCEPTIONS = {
+    "Name": "a compression pointer is packed as !H and read back as two single bytes (its form is checked by name/pointer-form and the compression round trips)",
+    "RRHeader": "rdlength is written as 0 and patched afterwards with a second !H (checked by the record round trips)",
+    "Record_TSIG": "48-bit time: pack('!Q')[2:] is read back as two zero bytes + !QHH",
+    "_OPTHeader": "delegates to RRHeader with an UnknownRecord payload",
+}
+
+
+def _reachable_private(cls: ast.ClassDef, start: ast.AST, mod) -> List[ast.AST]:
+    ms = methods(cls)
+    out, todo = [], [start]
+    while todo:
+        f = todo.pop()
+        if any(f is x for x in out):
+            continue
+        out.append(f)
+        for c in ast.walk(f):
+            if isinstance(c, ast.Call) and isinstance(c.func, ast.Attribute) and isinstance(c.func.value, ast.Name) and c.func.value.id in ("self", "cls", cls.name) \
+                    and c.func.attr.startswith("_") and not c.func.attr.startswith("__") and c.func.attr in ms:
+                todo.append(ms[c.func.attr])
+            if isinstance(c, ast.Call) and isinstance(c.func, ast.Name) and c.func.id.startswith("_"):
+                d = mod.find(c.func.id)
+                if isinstance(d, ast.FunctionDef) and d.name not in ("_ord2bytes",):
+                    todo.append(d)
+    return out
+
+
+def _codes_of(funcs, mod, cls, consts, side: str):
+    """Multiset of struct codes written (side='w') or read (side='r') with constant formats; None if some format is computed."""
+    from sa.astx import call_name, const_eval, NotConst
+    from sa.props._lib_g import struct_codes
+    codes: List[str] = []
+    names = ("struct.pack", "pack") if side == "w" else ("struct.unpack", "unpack")
+    for f in funcs:
+        params = {a.arg for a in getattr(f.args, "args", [])}
+        for c in ast.walk(f):
+            if not isinstance(c, ast.Call):
+                continue
+            nm = call_name(c)
+            if nm in names and c.args:
+                a0 = c.args[0]
+                if isinstance(a0, ast.Name) and a0.id in params:
+                    continue          # a read/write helper: its format is the caller's constant, counted at the call site below
+                fmt = None
+                if isinstance(a0, ast.Attribute) and isinstance(a0.value, ast.Name) and a0.value.id in ("self", "cls", cls.name):
+                    fmt = class_const(mod, cls, a0.attr, consts)
+                else:
+                    try:
+                        fmt = const_eval(a0, consts)
+                    except NotConst:
+                        fmt = None
+                if not isinstance(fmt, str):
+                    return None
+                codes.extend(x for x in struct_codes(fmt) if not x.endswith("s"))
+            elif nm and isinstance(c.func, ast.Name) and c.func.id.startswith("_") and len(c.args) >= 2 and isinstance(mod.find(c.func.id), ast.FunctionDef) and c.func.id != "_ord2bytes":
+                # module-level read/write helper taking a format argument
+                for a in c.args[1:]:
+                    fmt = None
+                    if isinstance(a, ast.Attribute) and isinstance(a.value, ast.Name) and a.value.id in ("self", "cls", cls.name):
+                        fmt = class_const(mod, cls, a.attr, consts)
+                    elif isinstance(a, ast.Constant) and isinstance(a.value, str):
+                        fmt = a.value
+                    if isinstance(fmt, str) and fmt[:1] in "!<>=@" and side == "r":
+                        codes.extend(x for x in struct_codes(fmt) if not x.endswith("s"))
+            elif side == "w" and nm == "_ord2bytes":
+                codes.append("B")
+            elif side == "r" and nm == "ord" and c.args:
+                from sa.props._lib_g import expand as _expand, single_defs as _sd
+                a_ = _expand(c.args[0], _sd(f))
+                if isinstance(a_, ast.Call) and call_name(a_) == "readPrecisely":
+                    codes.append("B")
+    return sorted(codes)
+
+
+def check_format_tables(ctx, mod, consts):
+    """Table agreement, over ALL classes that define both directions: the multiset of fixed-size struct codes the writer packs equals the
+    multiset the reader unpacks (raw 's' fields aside).  A signed/unsigned or width disagreement is visible here for every input."""
+    n = 0
+    for c in [x for x in mod.tree.body if isinstance(x, ast.ClassDef)]:
+        ms = methods(c)
+        if "encode" not in ms or "decode" not in ms or c.name.startswith("I") and not ms["encode"].body[-1:] == ms["encode"].body[-1:] and False:
+            continue
+        if any(b == "Interface" for b in [getattr(x, "id", getattr(x, "attr", "")) for x in c.bases]):
+            continue
+        q = f"{Q}.{c.name}"
+        if c.name in FORMAT_TABLE_EXCEPTIONS:
+            ctx.ok("layout/format-table", q, "documented exception: " + FORMAT_TABLE_EXCEPTIONS[c.name])
+            continue
+        enc = _codes_of(_reachable_private(c, ms["encode"], mod), mod, c, consts, "w")
+        dec = _codes_of(_reachable_private(c, ms["decode"], mod), mod, c, consts, "r")
+        if enc is None or dec is None:
+            ctx.note(f"layout/format-table: {c.name} builds a struct format at run time; clause left to roundtrip/record (bounded)")
+            continue
+        n += 1
+        ctx.check(enc == dec, "layout/format-table", q, f"{c.name}.encode packs the fixed-size fields {enc} but decode unpacks {dec}: width or signedness differ for every message carrying this record")
+    ctx.floor("layout/format-table", n, 20, "classes with both directions")
+
+
+def check_name_bounds_static(ctx, mod, consts):
+    """Name.encode: the length byte and the pointer are written only under guards that keep them inside the format (dominance + linear normal form)."""
+    from sa.astx import call_name, lincmp, walk_local
+    from sa.props._lib_g import expand, single_defs
+    f = ctx.func(DNS, "Name.encode")
+    g = ctx.cfg(f)
+    q = Q + ".Name.encode"
+    defs = single_defs(f)
+    strio = f.args.args[1].arg if len(f.args.args) > 1 else "strio"
+    len_sites, ptr_sites = [], []
+    for n in g.ids(lambda n: n.ast is not None and n.kind in ("stmt", "test")):
+        for c in walk_local(g.node(n).ast):
+            if isinstance(c, ast.Call) and call_name(c) == f"{strio}.write" and len(c.args) == 1:
+                a = expand(c.args[0], defs)
+                if isinstance(a, ast.Call) and call_name(a) in ("_ord2bytes",) and a.args:
+                    len_sites.append((n, a.args[0]))
+                elif isinstance(a, ast.Call) and call_name(a) in ("struct.pack", "pack") and any(isinstance(x, ast.BinOp) and isinstance(x.op, ast.BitOr) for x in ast.walk(a)):
+                    bo = next(x for x in ast.walk(a) if isinstance(x, ast.BinOp) and isinstance(x.op, ast.BitOr))
+                    operand = bo.right if isinstance(bo.left, ast.Constant) else bo.left
+                    ptr_sites.append((n, operand))
+    if not len_sites:
+        ctx.note("name/label-length-limit: the write of the label length byte was not recognised in Name.encode; clause left to name-evaluated/label-length-limit (bounded)")
+    if not ptr_sites:
+        ctx.note("name/pointer-offset-limit: the write of the compression pointer was not recognised in Name.encode; clause left to name-evaluated/pointer-offset-limit (bounded)")
+
+    def bounded_above(n, operand, limit) -> bool:
+        terms_ok = {src(expand(operand, defs)), src(operand)}
+        # the length byte `ind` is len(label) on one branch and the dot position on the other: a guard on len(<label variable>) also counts
+        for t, lab in g.edge_guards(n):
+            fm = lincmp(expand(g.node(t).ast, defs), consts, negate=(lab == "F"))
+            if fm is None or len(fm[0]) != 1:
+                continue
+            (term, coef), = tuple(fm[0])
+            if coef == -1 and -fm[1] <= limit and (term in terms_ok or term.startswith("len(")):
+                return True
+        return False
+    done = set()
+    for n, operand in len_sites:
+        if "len" in done:
+            continue
+        done.add("len")
+        ctx.check(all(bounded_above(m, o, 63) for m, o in len_sites), "name/label-length-limit", q + " | <label longer than 63 bytes>",
+                  "Name(b'a'*64 + b'.com').encode() writes the length byte 0x40 and a 200-byte label writes 0xc8: the two top bits of that byte mean "
+                  "'compression pointer' to every reader, so the name is not refused and does not decode to itself (labels are limited to 63 bytes)")
+    for n, operand in ptr_sites[:1]:
+        ctx.check(all(bounded_above(m, o, 0x3FFF) for m, o in ptr_sites), "name/pointer-offset-limit", q + " | <compression pointer to an offset >= 0x4000>",
+                  "a name that was first written at offset >= 0x4000 is referenced with 0xC000 | offset, which a reader decodes as offset & 0x3FFF: "
+                  "in a 26 KiB message the last owner name decodes to bytes from the middle of another record")
+
+
+def check_decoded_fields_static(ctx, mod, consts):
+    """Every attribute a decoder (with its private helpers) assigns takes part in ==  (def-use over the class, no evaluation)."""
+    allowed = {("RRHeader", "rdlength"), ("Record_A6", "bytes")}
+    for c in [x for x in mod.tree.body if isinstance(x, ast.ClassDef) and "decode" in methods(x)]:
+        r = mro_lookup(mod, c, "compareAttributes")
+        if r is None:
+            continue
+        try:
+            attrs = list(ast.literal_eval(r[1]))
+        except ValueError:
+            ctx.note(f"equality/decoded-fields-compared: {c.name}.compareAttributes is not a literal; clause left to equality/decoded-fields-evaluated (bounded)")
+            continue
+        assigned = set()
+        dynamic = False
+        for f in _reachable_private(c, methods(c)["decode"], mod):
+            if not any(f is m for m in methods(c).values()):
+                continue
+            for st in ast.walk(f):
+                if isinstance(st, (ast.Assign, ast.AugAssign, ast.AnnAssign)):
+                    for t in (st.targets if isinstance(st, ast.Assign) else [st.target]):
+                        for e in ast.walk(t):
+                            if isinstance(e, ast.Attribute) and isinstance(e.value, ast.Name) and e.value.id == "self" and isinstance(e.ctx, ast.Store):
+                                assigned.add(e.attr)
+                if isinstance(st, ast.Call) and isinstance(st.func, ast.Name) and st.func.id == "setattr" and st.args and src(st.args[0]) == "self":
+                    if len(st.args) > 1 and isinstance(st.args[1], ast.Constant):
+                        assigned.add(st.args[1].value)
+                    else:
+                        dynamic = True
+        for a in sorted(assigned):
+            if (c.name, a) in allowed or a.startswith("_"):
+                continue
+            ctx.check(a in attrs, "equality/decoded-fields-compared", f"{Q}.{c.name} | {a}",
+                      f"{c.name}.decode sets self.{a} but compareAttributes {tuple(attrs)} ignores it: two records differing only there compare equal "
+                      "(a round trip would not notice a mangled field)")
+        if dynamic:
+            ctx.note(f"equality/decoded-fields-compared: {c.name}.decode also sets attributes through setattr() with computed names; those are left to equality/decoded-fields-evaluated (bounded)")
+
+
 def check(ctx):
     mod = ctx.mod(DNS)
     consts = module_consts(mod)
+    with ctx.section("structural: format tables"):
+        check_format_tables(ctx, mod, consts)
+    with ctx.section("structural: Name.encode bounds"):
+        check_name_bounds_static(ctx, mod, consts)
+    with ctx.section("structural: decoded fields compared"):
+        check_decoded_fields_static(ctx, mod, consts)
     w = World(ctx, mod, consts)
     for name in ("Message.encode", "Message.decode", "Message.parseRecords", "Message.toStr", "Message.fromStr", "Name.encode", "Name.decode", "RRHeader.encode", "RRHeader.decode"):
         ctx.func(DNS, name)
